@@ -5,6 +5,15 @@ from . import spec as S
 from .vals import *
 
 
+def _is_ground_term(e, cache):
+    k = e.get_id()
+    if k in cache:
+        return cache[k]
+    r = not z3.is_var(e) and all(_is_ground_term(ch, cache) for ch in e.children())
+    cache[k] = r
+    return r
+
+
 def has_quantifier(e, memo=None):
     """memo is per call: z3 ast ids are only unique among live terms"""
     if memo is None:
@@ -218,13 +227,16 @@ class PathRun:
                 r = None
                 qf = [c for c in self.pc if not has_quantifier(c)]
                 if len(qf) < len(self.pc):
+                    ngoal, insts = self.skolem_instances(goal)
+                    insts = [c for c in insts if not has_quantifier(c)]
                     s0 = self._solver(min(3000, max(1000, self.d.budget.timeout_ms // 4)))
                     s0.add(*qf)
-                    s0.add(z3.Not(goal))
-                    s0.add(*ground_axioms(qf + [goal]))
+                    s0.add(*insts)
+                    s0.add(ngoal)
+                    s0.add(*ground_axioms(qf + insts + [ngoal]))
                     if str(s0.check()) == 'unsat':
                         r = 'unsat'
-                        detail = (detail + ' (from the quantifier-free hypotheses)').strip()
+                        detail = (detail + ' (from the quantifier-free hypotheses' + (f' and {len(insts)} instances at the goal index' if insts else '') + ')').strip()
                 if r is None:
                     r = str(s.check())
                 if r == 'unknown' and self.pc_tags:
@@ -267,6 +279,88 @@ class PathRun:
             self.d.obligations.append(ob)
         if self.d.ob_cache[key].verdict != 'failed' and assume:
             self.pc.append(goal)
+
+    def skolem_instances(self, goal):
+        """(negated goal, instances of quantified hypotheses).  A goal `forall j: P(j)` is refuted at a fresh index j0.
+        Universally quantified hypotheses over one integer are instantiated at j0, j0 - 1, j0 + 1 and at the ground index
+        terms the (skolemised) goal reads sequences at; hypotheses over one value (the witness axioms of comprehension
+        dicts) at the ground keys looked up in the goal and in those instances.  Sound: every instance follows from its
+        hypothesis, and not P(j0) for a fresh j0 is equisatisfiable with not forall j: P(j)."""
+        sks = []
+        if z3.is_quantifier(goal) and goal.is_forall() and all(goal.var_sort(k) == z3.IntSort() for k in range(goal.num_vars())):
+            self._sk = getattr(self, '_sk', 0) + 1
+            sks = [z3.Int(f'sk!{self._sk}!{k}') for k in range(goal.num_vars())]
+            ngoal = z3.Not(z3.substitute_vars(goal.body(), *reversed(sks)))
+        else:
+            ngoal = z3.Not(goal)
+        cands, seen = [], set()
+
+        def add(t):
+            if t.get_id() not in seen and len(cands) < 10:
+                seen.add(t.get_id())
+                cands.append(t)
+        for sk in sks:
+            add(sk)
+        if sks:
+            add(sks[0] - 1)
+            add(sks[0] + 1)
+        gcache = {}
+
+        def index_terms(e, out, memo):
+            if e.get_id() in memo or z3.is_quantifier(e):
+                return
+            memo.add(e.get_id())
+            if z3.is_app(e):
+                if e.decl().kind() in (z3.Z3_OP_SEQ_NTH, z3.Z3_OP_SEQ_AT) or e.decl().name() in ('seq.nth_i', 'seq.nth_u'):
+                    ix = e.arg(1)
+                    if _is_ground_term(ix, gcache) and not z3.is_int_value(ix):
+                        out.append(ix)
+                for ch in e.children():
+                    index_terms(ch, out, memo)
+        ixs = []
+        index_terms(ngoal, ixs, set())
+        for t in ixs:
+            add(t)
+        insts = []
+        valq = []
+        for h in self.pc:
+            if not (z3.is_quantifier(h) and h.is_forall()):
+                continue
+            n = h.num_vars()
+            if n == 1 and h.var_sort(0) == Val:
+                valq.append(h)
+                continue
+            if not all(h.var_sort(k) == z3.IntSort() for k in range(n)):
+                continue
+            if n == 1:
+                for c in cands:
+                    insts.append(z3.substitute_vars(h.body(), c))
+            elif n == 2 and sks:
+                for a in sks:
+                    for b in sks:
+                        insts.append(z3.substitute_vars(h.body(), a, b))
+        if valq:
+            keys, kseen = [], set()
+
+            def dict_keys(e, memo):
+                if e.get_id() in memo or z3.is_quantifier(e):
+                    return
+                memo.add(e.get_id())
+                if z3.is_app(e):
+                    if e.decl().kind() == z3.Z3_OP_SELECT and z3.is_app(e.arg(0)) and e.arg(0).decl().name().startswith('DICT_'):
+                        k = e.arg(1)
+                        if k.get_id() not in kseen and _is_ground_term(k, gcache) and len(keys) < 6:
+                            kseen.add(k.get_id())
+                            keys.append(k)
+                    for ch in e.children():
+                        dict_keys(ch, memo)
+            memo = set()
+            for e in [ngoal] + insts:
+                dict_keys(e, memo)
+            for h in valq:
+                for k in keys:
+                    insts.append(z3.substitute_vars(h.body(), k))
+        return ngoal, insts
 
     def dict_hint(self, d, k):
         """add the ground instance of a comprehension dict's witness axiom at a looked-up key"""
